@@ -6,6 +6,7 @@
 -/
 import Rtcp.Proofs.C05
 import Rtcp.Gen.Headers
+import Rtcp.Gen.Sizes
 namespace Rtcp.C05
 open Rtcp Gen
 
@@ -43,5 +44,37 @@ theorem model_headers (sr : SenderReport) (rr : ReceiverReport) (sd : SourceDesc
     rb.header.type = 206 ∧ rb.header.count = 15 ∧ rb.header.length = (rb.marshalSize / 4 - 1) % 65536 ∧
     cf.header.type = 205 ∧ cf.header.count = 11 := by
   repeat' constructor
+
+end Rtcp.C05
+
+/-! ### MarshalSize: the model's size functions are the source's, translated on every run -/
+namespace Rtcp.C05
+open Rtcp Gen
+
+/-- the model's `marshalSize` definitions equal the translations of the current source's `MarshalSize` return
+expressions (tools/extract/sizes.go → Gen/Sizes.lean), for every method the translator covers -/
+theorem source_sizes (sr : SenderReport) (rr : ReceiverReport) (sd : SourceDescription) (n : TransportLayerNack)
+    (r3 : RapidResync) (pl : PictureLossIndication) (sl : SliceLossIndication) (f : FullIntraRequest) (rb : Remb)
+    (cf : Ccfb) (raw : Bytes) :
+    sr.marshalSize = Gen.size_SenderReport (sr.reports.length * receptionReportLength) sr.ext.length ∧
+    rr.marshalSize = Gen.size_ReceiverReport (rr.reports.length * receptionReportLength) rr.ext.length ∧
+    sd.marshalSize = Gen.size_SourceDescription (chunksLen sd.chunks) ∧
+    n.marshalSize = Gen.size_TransportLayerNack n.nacks.length ∧
+    r3.marshalSize = Gen.size_RapidResynchronizationRequest ∧
+    pl.marshalSize = Gen.size_PictureLossIndication ∧
+    sl.marshalSize = Gen.size_SliceLossIndication sl.sli.length ∧
+    f.marshalSize = Gen.size_FullIntraRequest f.fir.length ∧
+    rb.marshalSize = Gen.size_ReceiverEstimatedMaximumBitrate rb.ssrcs.length ∧
+    cf.marshalSize = Gen.size_CCFeedbackReport (blocksLen cf.blocks) ∧
+    (Packet.raw raw).marshalSize = Gen.size_RawPacket raw.length ∧
+    (∀ ps : List Packet, csize ps = Gen.size_CompoundPacket (ps.map Packet.marshalSize).sum) := by
+  refine ⟨rfl, rfl, rfl, rfl, rfl, rfl, rfl, rfl, ?_, rfl, rfl, fun _ => rfl⟩
+  simp only [Remb.marshalSize, Gen.size_ReceiverEstimatedMaximumBitrate]
+
+/-- which `MarshalSize` methods stay outside the translated fragment (branches, reflection): tied by the
+correspondence only; a method that gains or loses a branch changes this list -/
+theorem sizes_untranslated : Gen.sizesUntranslated =
+    [("ApplicationDefined", "has a branch"), ("ExtendedReport", "expression outside the translated fragment"),
+     ("Goodbye", "has a branch"), ("TransportLayerCC", "has a branch")] := by decide
 
 end Rtcp.C05
